@@ -448,7 +448,89 @@ fn run_open_fails(input: &Value) -> Case {
     Case { coq: format!("CO {} {}", cbool(failed), cbool(restored)), json: j, tags: vec!["open_fails".into()], nontrivial: true }
 }
 
+/// The escape-sequence resize mode: the ioctl reports no pixel size, the terminal answers the size queries, so the
+/// library asks the terminal for its size on SIGWINCH and turns the answers into Resize events.
+fn run_escsize(input: &Value) -> Case {
+    let _g = SERIAL.lock().unwrap_or_else(|e| e.into_inner());
+    let mut j = input.clone();
+    let bad = |j: Value, e: String| {
+        let mut j = j;
+        j["impl"] = json!({ "error": e });
+        Case { coq: "CE 0 0 0 false".into(), json: j, tags: vec!["infra-error".into()], nontrivial: false }
+    };
+    let (master, path) = match open_pty() {
+        Ok(x) => x,
+        Err(e) => return bad(j, e),
+    };
+    let master_fd = master.as_raw_fd();
+    set_winsize(master_fd, 30, 100); // no pixel size
+    let before = tcgetattr(master_fd);
+    std::env::set_var("TERM", "xterm-256color");
+    std::env::remove_var("COLORTERM");
+    let peer = Peer::spawn(master, vec![Rate { size: 65536, sleep_us: 0 }], true);
+    peer.ctl(Ctl::AnswerSize(Some((30, 100, 600, 1000))));
+    std::thread::sleep(Duration::from_millis(5));
+    let mut term = match SystemTerminal::open(&path) {
+        Ok(t) => t,
+        Err(e) => {
+            let _ = peer.finish();
+            return bad(j, format!("open failed: {:?}", e));
+        }
+    };
+    let size_mode = term.size().map(|s| s.pixels.height == 600).unwrap_or(false);
+    let winches = input["winches"].as_u64().unwrap_or(1);
+    let (mut resizes, mut others, mut polls) = (0u64, 0u64, 0u64);
+    let mut kinds = vec![];
+    for _ in 0..winches {
+        unsafe { libc::raise(libc::SIGWINCH) };
+        // the answer needs a round trip through the peer thread
+        let t0 = Instant::now();
+        let mut got = false;
+        while t0.elapsed() < Duration::from_millis(1500) {
+            polls += 1;
+            match term.poll(Some(Duration::from_millis(50))) {
+                Ok(Some(TerminalEvent::Resize(_))) => {
+                    resizes += 1;
+                    got = true;
+                    kinds.push("resize");
+                }
+                Ok(Some(TerminalEvent::Size(_))) => kinds.push("size"),
+                Ok(Some(_)) => {
+                    others += 1;
+                    kinds.push("other");
+                }
+                Ok(None) => {
+                    if got {
+                        break;
+                    }
+                }
+                Err(_) => {
+                    others += 100;
+                    break;
+                }
+            }
+        }
+    }
+    drop(term);
+    let after = tcgetattr(master_fd);
+    let _ = peer.finish();
+    let restored = match (&before, &after) {
+        (Some(b), Some(a)) => termios_key(b) == termios_key(a),
+        _ => false,
+    };
+    j["impl"] = json!({"escape_size_mode": size_mode, "resize_events": resizes, "other_events": others, "polls": polls, "kinds": kinds, "restored": restored});
+    Case {
+        coq: format!("CE {} {} {} {}", winches, resizes, others, cbool(size_mode && restored)),
+        json: j,
+        tags: vec!["escsize".into()],
+        nontrivial: true,
+    }
+}
+
 pub fn run(input: &Value) -> Case {
+    if input["escsize"].as_bool().unwrap_or(false) {
+        return run_escsize(input);
+    }
     if input["open_fails"].as_bool().unwrap_or(false) {
         return run_open_fails(input);
     }
@@ -571,6 +653,7 @@ pub fn generate(rng: &mut Rng, n: usize, _tier: &str) -> Vec<Value> {
     v.push(json!({"acts": [["pause", true], ["write", 300000], ["poll", 3]], "end": "drop_paused"}));
     v.push(json!({"stress": {"threads": 4, "wakes": 300}}));
     v.push(json!({"blocked_wake": true}));
+    v.push(json!({"escsize": true, "winches": 2}));
     // (corpus/C17: failed open, event flood at drop, a key arriving during a 1 MiB frame)
     // ... with the peer stalled only a wake request cuts the wait short, the key follows it
     v.push(json!({"acts": [["pause", true], ["write", 200000], ["in", "k"], ["wake", 1], ["poll", -1], ["poll", 20], ["pause", false], ["poll", 5]], "end": "drop"}));
